@@ -312,6 +312,10 @@ func classifyFrame(st stage, stream []byte, geoms []*geom, target *geom) parsed 
 		full := pp.Offset == 0 && int64(pp.Length) == g.pieceLen(int(pp.Index))
 		if c := idxClass(pp.Index, full); c != "" {
 			p.Class, p.Hostile = "PIECE_PAYLOAD-"+c, true
+		} else if !full && pp.Offset == 0 && int64(pp.Length) > g.pieceLen(int(pp.Index)) {
+			// longer than the addressed piece although within the torrent's piece
+			// length: only possible for the short last piece
+			p.Class, p.Hostile = "PIECE_PAYLOAD-overlong-for-piece", true
 		} else if !full {
 			p.Class, p.Hostile = "PIECE_PAYLOAD-length-mismatch", true
 		} else if bytes.Equal(payload, g.piece(int(pp.Index))) {
@@ -462,6 +466,33 @@ func genOff(r *rand.Rand, g *geom) int32 {
 	return 0
 }
 
+// genWrongLengthPayload returns a PIECE_PAYLOAD for an existing piece i whose
+// declared AND actual length disagrees with the piece while staying within the
+// torrent's piece length (so it passes any per-connection cap): for the short
+// last piece a length in (pieceLen, PieceLength], otherwise a shorter one. The
+// body is the piece's real bytes followed by (or cut to) the wrong length, or
+// random bytes.
+func genWrongLengthPayload(r *rand.Rand, g *geom, i int) []byte {
+	pl := g.pieceLen(i)
+	var l int64
+	if pl < g.PieceLength && r.Intn(4) != 0 {
+		l = pl + 1 + r.Int63n(g.PieceLength-pl) // (pl, PieceLength]
+		if r.Intn(3) == 0 {
+			l = g.PieceLength
+		}
+	} else if pl > 1 {
+		l = 1 + r.Int63n(pl-1)
+	} else {
+		l = 0
+	}
+	body := make([]byte, l)
+	r.Read(body)
+	if r.Intn(3) != 0 {
+		copy(body, g.piece(i)) // correct prefix, extra tail (or cut)
+	}
+	return append(frame(piecePayload(i, 0, l)), body...)
+}
+
 // genEstablishedFrame returns the bytes of one hostile frame for an
 // established connection (including any payload bytes that follow it).
 func genEstablishedFrame(r *rand.Rand, g *geom) []byte {
@@ -483,6 +514,12 @@ func genEstablishedFrame(r *rand.Rand, g *geom) []byte {
 			return frame(pieceRequest(int(i), 0, g.pieceLen(int(i))))
 		}
 		return frame(pieceRequest(int(i), int64(genOff(r, g)), int64(genLen(r, g, i))))
+	case k < 9: // wrong-length payload for an existing piece, the last one half of the time
+		i := g.N - 1
+		if r.Intn(2) == 0 {
+			i = r.Intn(g.N)
+		}
+		return genWrongLengthPayload(r, g, i)
 	case k < 12: // PIECE_PAYLOAD field values + body
 		i := genIndex(r, g)
 		var off, l int32
